@@ -218,6 +218,24 @@ pub fn adversarial_names(f: Fmt) -> Vec<String> {
         out.push(format!("x{}5", e.sentence.stamp_fixed));
         out.push(format!("x{}-5", e.sentence.stamp_fixed));
     }
+    // proper prefixes / suffixes of multi-character keywords that are not keywords themselves
+    // (Han: 具 of 具有, 现 of 现得, 任 of 任一, 外 of 外交 ...): alone and at either end of a name
+    let all_kw = keywords(e);
+    for kw in &all_kw {
+        let cs: Vec<char> = kw.chars().collect();
+        if cs.len() < 2 {
+            continue;
+        }
+        for cut in 1..cs.len() {
+            for part in [cs[..cut].iter().collect::<String>(), cs[cut..].iter().collect::<String>()] {
+                if part.chars().all(|c| (e.is_valid_atom_name)(c)) && !all_kw.contains(&part.as_str()) {
+                    out.push(part.clone());
+                    out.push(format!("x{}", part));
+                    out.push(format!("{}x", part));
+                }
+            }
+        }
+    }
     // generic tricky identifiers
     for s in ["t", "t5", "1", "0", "00", "1e5", "e", "inf", "nan", "x-1", "a--b", "a-_-b"] {
         out.push(s.to_string());
